@@ -101,3 +101,19 @@ func cmdCfg(args []string) int {
 	}
 	return 0
 }
+
+func cmdGoSites(args []string) int {
+	prog, err := eng.Load("/repo", nil)
+	if err != nil {
+		fmt.Println(err)
+		return 2
+	}
+	for _, g := range prog.GoSites() {
+		wg := ""
+		if g.ViaWG != nil {
+			wg = "wg.Go on " + eng.ExprStr(g.ViaWG)
+		}
+		fmt.Printf("%-95s %s @%s\n", g.Key(), wg, prog.ShortPos(g.Node.Pos()))
+	}
+	return 0
+}
